@@ -109,25 +109,92 @@ func sharedRoot(v ssa.Value) (string, bool) {
 	return "", false
 }
 
+// onceBodies: the functions that run only as the argument of a sync.Once.Do, mapped to that call: the closure
+// passed to it; for a method value (`once.Do(x.init)`) or a named function also the unexported method/function
+// itself, provided the Once.Do argument is the only thing that ever calls it.
+var onceBodiesCache map[*ssa.Function]*ssa.Call
+
+func onceBodies(P *Program) map[*ssa.Function]*ssa.Call {
+	if onceBodiesCache != nil {
+		return onceBodiesCache
+	}
+	out := map[*ssa.Function]*ssa.Call{}
+	for _, fn := range P.AllFuncs {
+		if fn.Blocks == nil {
+			continue
+		}
+		for _, ci := range callsIn(fn) {
+			c, ok := ci.(*ssa.Call)
+			if !ok || calleeName(c) != "(*sync.Once).Do" || len(c.Call.Args) < 2 {
+				continue
+			}
+			var body *ssa.Function
+			switch a := c.Call.Args[1].(type) {
+			case *ssa.MakeClosure:
+				body, _ = a.Fn.(*ssa.Function)
+			case *ssa.Function:
+				body = a
+			}
+			if body == nil {
+				continue
+			}
+			out[body] = c
+			// a bound-method wrapper or a named function: the function it stands for, if nothing else calls it
+			target := body
+			if body.Synthetic != "" {
+				target = nil
+				for _, cc := range callsIn(body) {
+					if g := staticCallee(cc); g != nil {
+						target = g
+					}
+				}
+			}
+			if target == nil || target == body && body.Parent() != nil {
+				continue
+			}
+			if target.Object() != nil && target.Object().Exported() {
+				continue
+			}
+			only := true
+			if node := P.CG.Nodes[target]; node != nil {
+				for _, e := range node.In {
+					if e.Caller.Func != body && e.Site != ssa.CallInstruction(c) {
+						only = false
+					}
+				}
+			}
+			// and it is not stored or passed anywhere else as a value
+			for _, g := range P.AllFuncs {
+				if g == body || g.Blocks == nil {
+					continue
+				}
+				allInstrs(g, func(i ssa.Instruction) {
+					for _, op := range i.Operands(nil) {
+						if *op == ssa.Value(target) {
+							if cc, isCall := i.(ssa.CallInstruction); isCall && cc.Common().Value == ssa.Value(target) {
+								only = false // a direct call elsewhere
+							} else if i != ssa.Instruction(c) {
+								only = false
+							}
+						}
+					}
+				})
+			}
+			if only {
+				out[target] = c
+			}
+		}
+	}
+	onceBodiesCache = out
+	return out
+}
+
 // synchronised: the instruction is inside a function passed to sync.Once.Do, or dominated by a mutex Lock.
 func synchronised(P *Program, fn *ssa.Function, ins ssa.Instruction) (bool, string) {
-	// closure run by Once.Do
+	// function run by Once.Do (or a closure nested in one)
+	ob := onceBodies(P)
 	for p := fn; p != nil; p = p.Parent() {
-		if p.Parent() == nil {
-			break
-		}
-		par := p.Parent()
-		under := false
-		allInstrs(par, func(j ssa.Instruction) {
-			c, ok := j.(*ssa.Call)
-			if !ok || calleeName(c) != "(*sync.Once).Do" {
-				return
-			}
-			if mc, ok := c.Call.Args[1].(*ssa.MakeClosure); ok && mc.Fn == ssa.Value(p) {
-				under = true
-			}
-		})
-		if under {
+		if ob[p] != nil {
 			return true, "inside sync.Once.Do"
 		}
 	}
@@ -559,27 +626,18 @@ func onceGuardedReadsRule(P *Program, R *Report) {
 	rule := "C20.h"
 	type tf struct{ t, f string }
 	lazy := map[tf]*ssa.Function{}
-	for _, fn := range P.AllFuncs {
-		if fn.Blocks == nil {
+	for cl := range onceBodies(P) {
+		cl := cl
+		if cl.Blocks == nil {
 			continue
 		}
-		for _, c := range callsIn(fn) {
-			if calleeName(c) != "(*sync.Once).Do" {
-				continue
-			}
-			mc, ok := c.Common().Args[1].(*ssa.MakeClosure)
-			if !ok {
-				continue
-			}
-			cl := mc.Fn.(*ssa.Function)
-			allInstrs(cl, func(i ssa.Instruction) {
-				if st, ok := i.(*ssa.Store); ok {
-					if fa, ok := st.Addr.(*ssa.FieldAddr); ok {
-						lazy[tf{typeKey(fa.X.Type()), fieldName(fa.X.Type(), fa.Field)}] = cl
-					}
+		allInstrs(cl, func(i ssa.Instruction) {
+			if st, ok := i.(*ssa.Store); ok {
+				if fa, ok := st.Addr.(*ssa.FieldAddr); ok {
+					lazy[tf{typeKey(fa.X.Type()), fieldName(fa.X.Type(), fa.Field)}] = cl
 				}
-			})
-		}
+			}
+		})
 	}
 	R.decide(rule, "lazy-fields:count", "fields initialised under sync.Once were found (>= 1: Credential.nonrevCache)", len(lazy) >= 1, fmt.Sprintf("%d", len(lazy)), "")
 	for _, fn := range P.AllFuncs {
@@ -587,7 +645,7 @@ func onceGuardedReadsRule(P *Program, R *Report) {
 			continue
 		}
 		for k, cl := range lazy {
-			if fn == cl {
+			if fn == cl || onceBodies(P)[fn] != nil {
 				continue
 			}
 			var loads []*ssa.UnOp
